@@ -55,9 +55,11 @@ end Tak
 namespace Tak
 open Spec
 
-theorem foldl_invB {basis : Array W} {size : Nat} (F : PosFacts basis size (InvB basis) OkM) :
-    ∀ (pre : List Move) (p0 p : Pos), InvB basis p0 → (∀ m ∈ pre, m.type ≠ Facts.mtPass) →
-      pre.foldlM (fun p m => p.apply basis m) p0 = .ok p → InvB basis p := by
+/-- the invariant holds along a sequence of accepted moves whose side conditions follow from the invariant -/
+theorem foldl_inv {basis : Array W} {size : Nat} {Inv : Pos → Prop} {Ok : Pos → Move → Prop}
+    (F : PosFacts basis size Inv Ok) (hok : ∀ p m, Inv p → m.type ≠ Facts.mtPass → Ok p m) :
+    ∀ (pre : List Move) (p0 p : Pos), Inv p0 → (∀ m ∈ pre, m.type ≠ Facts.mtPass) →
+      pre.foldlM (fun p m => p.apply basis m) p0 = .ok p → Inv p := by
   intro pre
   induction pre with
   | nil => intro p0 p hi _ h; simp [pure, Except.pure] at h; subst h; exact hi
@@ -68,23 +70,27 @@ theorem foldl_invB {basis : Array W} {size : Nat} (F : PosFacts basis size (InvB
     | error e => simp [ha, bind, Except.bind] at h
     | ok p1 =>
       simp only [ha, bind, Except.bind] at h
-      have hok : OkM p0 m := ⟨hnp m (by simp), stackLimit_of_budget m hi.2⟩
-      exact ih p1 p (F.apply p0 m p1 hi hok ha).1 (fun x hx => hnp x (by simp [hx])) h
+      exact ih p1 p (F.apply p0 m p1 hi (hok p0 m hi (hnp m (by simp))) ha).1 (fun x hx => hnp x (by simp [hx])) h
 
-/-- along book lines without the internal pass move, C01's side conditions hold (default games up to 6×6) -/
-theorem linesOk_default (basis : Array W) (size : Nat) (hs : size ≤ 6) (lines : List (List Move))
-    (hnp : ∀ line ∈ lines, ∀ m ∈ line, m.type ≠ Facts.mtPass) : LinesOk basis size lines OkM := by
-  have F := (posFacts2_default basis size hs).toPosFacts
+/-- along book lines without the internal pass move the side conditions hold, if they follow from the invariant -/
+theorem linesOk_of {basis : Array W} {size : Nat} {Inv : Pos → Prop} {Ok : Pos → Move → Prop}
+    (F : PosFacts basis size Inv Ok) (hok : ∀ p m, Inv p → m.type ≠ Facts.mtPass → Ok p m)
+    (lines : List (List Move)) (hnp : ∀ line ∈ lines, ∀ m ∈ line, m.type ≠ Facts.mtPass) :
+    LinesOk basis size lines Ok := by
   intro line hline pre m suf hl p hp
   have hm : m.type ≠ Facts.mtPass := hnp line hline m (by rw [hl]; simp)
-  refine ⟨hm, ?_⟩
-  apply stackLimit_of_budget
   unfold linePos at hp
   cases hn : Pos.new { size := size, pieces := 0, capstones := 0, blackWinsTies := false } with
   | error e => simp [hn, bind, Except.bind] at hp
   | ok p0 =>
     simp only [hn, bind, Except.bind] at hp
-    exact (foldl_invB F pre p0 p (F.new p0 hn)
-      (fun x hx => hnp line hline x (by rw [hl]; simp [hx])) hp).2
+    exact hok p m (foldl_inv F hok pre p0 p (F.new p0 hn)
+      (fun x hx => hnp line hline x (by rw [hl]; simp [hx])) hp) hm
+
+/-- along book lines without the internal pass move, C01's side conditions hold (default games up to 6×6) -/
+theorem linesOk_default (basis : Array W) (size : Nat) (hs : size ≤ 6) (lines : List (List Move))
+    (hnp : ∀ line ∈ lines, ∀ m ∈ line, m.type ≠ Facts.mtPass) : LinesOk basis size lines OkM :=
+  linesOk_of (posFacts2_default basis size hs).toPosFacts
+    (fun _ m hi hm => ⟨hm, stackLimit_of_budget m hi.2⟩) lines hnp
 
 end Tak
